@@ -84,3 +84,221 @@ class _:
             ("haplotig-registered", z3.Implies(z3.And(ht, z3.Not(fd)), z3.And(n.self.haplotig_scaffolds.len == o.self.haplotig_scaffolds.len + 1,
                                                                              n.self.haplotig_scaffolds[o.self.haplotig_scaffolds.len].z == o.scaffold.z))),
         ]
+
+
+# --- C17: determinism --------------------------------------------------------------------------------
+# "byte-identical output files regardless of the Python hash seed": the only iteration over a set whose order
+# can reach the output is `for tag in fragment_tags` in ScaffoldNamer.make_scaffold_name (fragment_tags is the
+# set returned by Scaffold.fragment_tags()).  Obligation: executing the real loop body for two different tags in
+# either order, from the same state, either raises in both orders or ends in the same state (by adjacent
+# transpositions this gives independence of any iteration order).
+
+from pyvc.spec import dict_maps  # noqa: E402
+
+
+@contract(f"{U}.ScaffoldNamer.get_set_haplotype", properties=("C17",))
+class _:
+    params = {"self": SN, "haplotype": STR}
+    result = STR
+
+    @staticmethod
+    def modifies(o):
+        return [("dict-maps", STR, STR)]
+
+    @staticmethod
+    def ensures(o, n, res):
+        d0, d1 = o.self.haplotype_lc_dict, n.self.haplotype_lc_dict
+        key = smt.str_fn("str.lower('')")(o.haplotype)
+        _, has0, _, val0 = dict_maps(o.state, STR, STR)
+        _, has1, _, val1 = dict_maps(n.state, STR, STR)
+        ref = d0.z
+        known = has0[ref][key]
+        sz0 = o.state.hmap("DSZ.String.String", smt.Int, smt.Int)
+        return [
+            ("result", res == z3.If(known, val0[ref][key], o.haplotype)),
+            ("dict", z3.And(has1[ref] == z3.Store(has0[ref], key, True), val1[ref] == z3.If(known, val0[ref], z3.Store(val0[ref], key, o.haplotype)))),
+            ("other-dicts", forall(lambda r: z3.Implies(r != ref, z3.And(has1[r] == has0[r], val1[r] == val0[r])))),
+            ("sizes", n.state.hmap("DSZ.String.String", smt.Int, smt.Int) == z3.Store(sz0, ref, sz0[ref] + z3.If(known, 0, 1))),
+        ]
+
+
+def _tag_loop_order_insensitive(mi, fn):
+    import ast
+
+    from pyvc.engine import Engine, OutOfSubset
+    from pyvc.spec import REGISTRY, SpecInapplicable, field_map
+    from pyvc.values import BOOL as _B, INT as _I, STR as _S, State, TOpt as _O, TRef as _R, Val, fresh_val
+
+    loops = [n for n in ast.walk(fn) if isinstance(n, ast.For) and isinstance(n.iter, ast.Name) and n.iter.id == "fragment_tags"]
+    if len(loops) != 1 or not isinstance(loops[0].target, ast.Name):
+        raise SpecInapplicable("`for tag in fragment_tags` not found in make_scaffold_name")
+    loop = loops[0]
+    assigned = sorted({n.id for n in ast.walk(loop) if isinstance(n, ast.Name) and isinstance(n.ctx, ast.Store)} - {loop.target.id})
+    types = {"scaffold_name": _O(_S), "haplotype": _O(_S), "is_painted": _B, "rank": _O(_I), "primary_tag": _B}
+    for name in assigned:
+        if name not in types and name != "msg":
+            raise SpecInapplicable(f"the tag loop assigns an unexpected local: {name}")
+    con = REGISTRY[f"{U}.ScaffoldNamer.make_scaffold_name"]
+
+    def run(order):
+        eng = Engine({})
+        eng.fn = con
+        eng.mi = mi
+        eng.gen_stack = []
+        st = State()
+        st.alloc = z3.Int("alloc@0")
+        st.ralloc = z3.Int("ralloc@0")
+        st.frames[0].func = (mi, fn)
+        st.frames[0].vars["self"] = Val(_R("ScaffoldNamer"), z3.Int("self"))
+        st.frames[0].vars["scaffold"] = Val(_R("Scaffold"), z3.Int("scaffold"))
+        for name, ty in types.items():
+            st.frames[0].vars[name] = Val(ty, z3.Const(f"{name}@0", ty.sort()))
+        outs = [("normal", st)]
+        for t in order:
+            nxt = []
+            for kind, s in outs:
+                if kind != "normal":
+                    nxt.append((kind, s))
+                    continue
+                s.assign(loop.target.id, Val(_S, t))
+                for oc in eng.exec_block(loop.body, s):
+                    if oc.kind in ("normal", "continue"):
+                        nxt.append(("normal", oc.st))
+                    elif oc.kind == "raise":
+                        nxt.append(("raise", oc.st))
+                    else:
+                        raise OutOfSubset(f"{oc.kind} in the tag loop body")
+            outs = nxt
+        return outs
+
+    t1, t2 = z3.String("tag1"), z3.String("tag2")
+    a_outs, b_outs = run([t1, t2]), run([t2, t1])
+    # domain: tags are non-empty strings (PretextView never writes an empty tag column), and so are the haplotype
+    # names already recorded
+    st0 = State()
+    _, has0, _, val0 = dict_maps(st0, _S, _S)
+    _, lcm, _ = field_map(st0, "ScaffoldNamer", "haplotype_lc_dict")
+    kk = z3.String("k!dom")
+    domain = [z3.Length(t1) > 0, z3.Length(t2) > 0,
+              z3.ForAll([kk], z3.Implies(has0[lcm[z3.Int("self")]][kk], z3.Length(val0[lcm[z3.Int("self")]][kk]) > 0))]
+
+    def snapshot(s):
+        vals = []
+        for name in types:
+            v = s.frames[0].vars[name]
+            from pyvc.values import pack
+
+            vals.append((name, pack(v, types[name]) if not isinstance(v.ty, type(types[name])) or True else v.z))
+        return vals, dict(s.heap)
+
+    out = []
+    for i, (ka, sa) in enumerate(a_outs):
+        for j, (kb, sb) in enumerate(b_outs):
+            pc = [t1 != t2] + domain + list(sa.pc) + list(sb.pc)
+            if ka != kb:
+                # the two orders must not disagree on raising: the combination has to be impossible
+                out.append(("post", f"orders-agree-on-raising[{i},{j}]", pc, z3.BoolVal(False)))
+                continue
+            if ka == "raise":
+                continue
+            va, ha = snapshot(sa)
+            vb, hb = snapshot(sb)
+            same = [x == y for (_, x), (_, y) in zip(va, vb)]
+            for name in set(ha) | set(hb):
+                ma, mb = ha.get(name), hb.get(name)
+                if ma is None or mb is None:
+                    init = z3.Const(f"{name}@0", (ma if ma is not None else mb).sort())
+                    ma = init if ma is None else ma
+                    mb = init if mb is None else mb
+                same.append(ma == mb)
+            out.append(("post", f"same-final-state[{i},{j}]", pc, z3.And(*same)))
+    if not out:
+        raise SpecInapplicable("no outcome pairs generated")
+    return out
+
+
+@contract(f"{U}.ScaffoldNamer.make_scaffold_name", properties=("C17",))
+class _:
+    custom = staticmethod(_tag_loop_order_insensitive)
+    note = "self-composition of the loop body over two distinct tags"
+
+
+def _set_iteration_sites(mi):
+    """(function, line, text) of every place where the iteration order of a set can flow into a value:
+    for loops, comprehensions, star-unpacking, list()/tuple()/join() over a name bound to a set"""
+    import ast
+
+    sites = []
+    for key, fn in mi.functions.items():
+        setnames = set()
+        for a in fn.args.args + fn.args.kwonlyargs:
+            if a.annotation is not None and ast.unparse(a.annotation).startswith("set"):
+                setnames.add(a.arg)
+
+        def is_set_expr(e):
+            if isinstance(e, (ast.Set, ast.SetComp)):
+                return True
+            if isinstance(e, ast.Call):
+                f = ast.unparse(e.func)
+                if f in ("set", "frozenset") or f.endswith(".fragment_tags") or f.endswith("fragment_junction_set"):
+                    return True
+            if isinstance(e, ast.Name) and e.id in setnames:
+                return True
+            if isinstance(e, ast.BinOp) and isinstance(e.op, (ast.BitOr, ast.BitAnd, ast.Sub, ast.BitXor)):
+                return is_set_expr(e.left) or is_set_expr(e.right)
+            return False
+
+        changed = True
+        while changed:
+            changed = False
+            for n in ast.walk(fn):
+                if isinstance(n, ast.Assign) and len(n.targets) == 1 and isinstance(n.targets[0], ast.Name) and is_set_expr(n.value):
+                    if n.targets[0].id not in setnames:
+                        setnames.add(n.targets[0].id)
+                        changed = True
+        for n in ast.walk(fn):
+            it = None
+            if isinstance(n, (ast.For, ast.comprehension)):
+                it = n.iter
+            elif isinstance(n, ast.Starred):
+                it = n.value
+            elif isinstance(n, ast.Call) and ast.unparse(n.func) in ("list", "tuple", "next", "iter", "enumerate", "zip") and n.args:
+                it = n.args[0]
+            elif isinstance(n, ast.Call) and isinstance(n.func, ast.Attribute) and n.func.attr == "join" and n.args:
+                it = n.args[0]
+            if it is not None and is_set_expr(it):
+                sites.append((key, getattr(n, "lineno", getattr(it, "lineno", 0)), ast.unparse(it)))
+    return sites
+
+
+SANCTIONED_SET_ITERATIONS = {
+    ("tola.assembly.build_utils", "ScaffoldNamer.make_scaffold_name", "fragment_tags"),  # proved order-insensitive above
+    ("tola.assembly.scaffold", "Scaffold.fragment_tags", "frag.tags"),
+}
+
+
+def _no_other_set_iteration(mi, fn):
+    """frame of C17: no other place in the package lets the iteration order of a set reach a value"""
+    import glob
+    import os
+
+    from pyvc import source
+    from pyvc.spec import SpecInapplicable
+
+    root = os.path.join(source.REPO_SRC, "tola")
+    found = []
+    for path in sorted(glob.glob(os.path.join(root, "**", "*.py"), recursive=True)):
+        mod = os.path.relpath(path, source.REPO_SRC)[:-3].replace(os.sep, ".")
+        if mod.endswith("__init__"):
+            continue
+        m = source.load(mod)
+        for key, line, text in _set_iteration_sites(m):
+            if (mod, key, text) not in SANCTIONED_SET_ITERATIONS:
+                found.append(f"{mod}:{key}:L{line}: {text}")
+    if found:
+        # a new site is not necessarily order-sensitive: undecided here, the bounded tier runs under several hash seeds
+        raise SpecInapplicable("iteration over a set outside the verified sites: " + "; ".join(found[:4]))
+    return [("post", "set-iteration-only-at-verified-sites", [], z3.BoolVal(True))]
+
+
+contract(f"{U}.ScaffoldNamer.__init__", properties=("C17",), custom=staticmethod(_no_other_set_iteration))(type("_", (), {}))
